@@ -47,6 +47,14 @@ class C30(Prop):
   def check(self, case, stats):
     ao = detsched.install()
     detsched.reset(ao)
+    # as in a new process: the three lazily used wrappers are made afresh (no instance, and whatever
+    # else a wrapper sets up on first use is not there yet)
+    for nm in ("FiberThreadEvent", "ActiveFabric", "InstrumentionWriter"):
+      old = getattr(ao, nm)
+      if hasattr(old, "klass"):
+        fresh = type(old)(old.klass)
+        detsched.virtualize_locks(fresh)
+        setattr(ao, nm, fresh)
     import miros.event as ev
     files = detsched.miros_files()
     seen = dict((k, []) for k in ("fabric", "run_event", "writer", "signal", "return_status", "slow_custom"))
